@@ -3,9 +3,11 @@ package mon
 import (
 	"bytes"
 	"fmt"
+	"math/rand/v2"
 	"runtime"
 	"strconv"
 	"sync"
+	"sync/atomic"
 	"time"
 
 	"github.com/wizenheimer/comet"
@@ -165,3 +167,32 @@ func runBeside(action func(), grace time.Duration) (finishedInTime bool, done ch
 }
 
 func runtimeGosched() { runtime.Gosched() }
+
+// installPerturbation installs a handler that, at every hook point, yields or sleeps briefly with PRNG-chosen
+// probability, to widen the interleavings a stress run sees (between critical sections; never changes results).
+func installPerturbation(seed uint64) (uninstall func(), hits *atomic.Int64) {
+	var mu sync.Mutex
+	rng := rand.New(rand.NewPCG(seed, 0x9e3779b97f4a7c15))
+	hits = &atomic.Int64{}
+	comet.VerifSetHook(func(point string, args ...any) {
+		if point == "memq.rotate" { // inside the queue lock: a pause there adds nothing
+			return
+		}
+		mu.Lock()
+		c := rng.IntN(32)
+		n := 1 + rng.IntN(3)
+		d := time.Duration(50+rng.IntN(250)) * time.Microsecond
+		mu.Unlock()
+		switch {
+		case c < 8:
+			for i := 0; i < n; i++ {
+				runtime.Gosched()
+			}
+			hits.Add(1)
+		case c < 10:
+			time.Sleep(d)
+			hits.Add(1)
+		}
+	})
+	return func() { comet.VerifSetHook(nil) }, hits
+}
